@@ -21,8 +21,16 @@ def c01Run (T : Parser.Table) (s : String) (addInt : Bool) : Json :=
   | .ok ts =>
     let toks := Json.arr (ts.map tokJson).toArray
     match Parser.parse T ts with
-    | .ok e => Json.mkObj [("toks", toks), ("ast", e.sexp), ("yield_ok", e.flat == ts),
-                           ("stratified", Spec.C01.Stratified Spec.C01.documentedTable e)]
+    | .ok e =>
+      -- the fully parenthesised form (C01_fullparen): its text, its tree, and the model's re-parse
+      let g := Spec.C01.groupAll e
+      let fpOk := match Parser.parse T g.flat with
+        | .ok e' => e'.sexp == g.sexp
+        | .error _ => false
+      Json.mkObj [("toks", toks), ("ast", e.sexp), ("yield_ok", e.flat == ts),
+                  ("stratified", Spec.C01.Stratified Spec.C01.documentedTable e),
+                  ("fp_src", " ".intercalate (g.flat.map (·.lexeme))), ("fp_ast", g.sexp),
+                  ("fp_ok", fpOk), ("ungrouped", (Spec.C01.ungroup e).sexp)]
     | .error e => Json.mkObj [("toks", toks), ("err", "parse:" ++ parseErrTag e)]
 
 def handle (op : String) (j : Json) : Option Json :=
